@@ -235,7 +235,7 @@ def const_av(v) -> AV:
     if isinstance(v, int):
         return AV('int', sign='neg' if v < 0 else 'zero' if v == 0 else 'pos', val=v)
     if isinstance(v, float):
-        return AV('float', sign='neg' if v < 0 else 'zero' if v == 0 else 'pos', frac=(v != int(v)), val=v)
+        return AV('float', sign='neg' if v < 0 else 'zero' if v == 0 else 'pos', frac=(v == v and abs(v) != float('inf') and v != int(v)), val=v)
     if isinstance(v, str):
         return AV('str', text=text_class(v), val=v)
     if isinstance(v, (list, tuple)):
@@ -1873,9 +1873,24 @@ class Evaluator:
                     vs.extend(sv.items)
                 else:
                     vs.append(self.ev(a, env))
-            if any(v.items is None for v in vs):
+            endless = [isinstance(v.val, tuple) and v.val and v.val[0] == 'repeat' for v in vs]
+            if any(v.items is None and not e for v, e in zip(vs, endless)):
                 raise Unknown('zip of unknown contents')
+            if any(endless):
+                finite_ = [len(v.items) for v, e in zip(vs, endless) if not e]
+                if not finite_:
+                    raise Unknown('zip of endless iterators only')
+                n_ = min(finite_)
+                cols_ = [((v.val[1],) * n_) if e else v.items[:n_] for v, e in zip(vs, endless)]
+                return AV('list', items=tuple(AV('tuple', items=t) for t in zip(*cols_)))
             return AV('list', items=tuple(AV('tuple', items=t) for t in zip(*[v.items for v in vs])))
+        if name is not None and _unparse(f) in ('repeat', 'itertools.repeat') and name not in env and 1 <= len(node.args) <= 2 and not node.keywords:
+            vs = self._args(node, env)
+            if len(vs) == 2:
+                if not (isinstance(vs[1].val, int) and not isinstance(vs[1].val, bool)):
+                    raise Unknown('repeat of an unknown count')
+                return AV('list', items=(vs[0],) * max(vs[1].val, 0))
+            return AV('other', val=('repeat', vs[0]))             # endless: only zip (which stops at the shortest) may consume it
         if name == 'sum' and node.args:
             v = self.ev(node.args[0], env)
             if v.items is None or not all(isinstance(x.val, (int, float)) and not isinstance(x.val, tuple) for x in v.items):
